@@ -277,8 +277,20 @@ Definition set_intscale_of (cls : Z) (p1 rescale target : T) : option T :=
   | None => None
   | Some _ => set_integral_scale (fun len => get (intscale_of cls p1 (len_rescaled len rescale))) target
   end.
-Definition user_of (shape : Z) (var nugget lr : T) : userfns :=
-  if Z.eqb shape 0 then user_gauss var nugget lr else user_expo var nugget lr.
+(* hole-effect shapes (negative lobes): wave sin(h)/h (valid in 3D; the Python class fixes dim = 3) and the damped
+   cosine exp(-a h) cos(h) with an optional argument a *)
+Definition cor_wave (h : T) : T := if neqb O h zero then one else nsin O h /! h.
+Definition cor_dampcos (a h : T) : T := nexp O (nneg O (a *! h)) *! ncos O h.
+Definition user_from_cor (c : T -> T) (var nugget lr : T) : userfns :=
+  mkUser c
+         (fun r => c (nabs O r /! lr))
+         (fun r => var *! c (nabs O r /! lr))
+         (fun r => var *! (one -! c (nabs O r /! lr)) +! nugget).
+Definition user_of (shape : Z) (a var nugget lr : T) : userfns :=
+  if Z.eqb shape 0 then user_gauss var nugget lr
+  else if Z.eqb shape 1 then user_expo var nugget lr
+  else if Z.eqb shape 2 then user_from_cor cor_wave var nugget lr
+  else user_from_cor (cor_dampcos a) var nugget lr.
 
 (* ---------- the object as a parameter state: assignments only rewrite parameters, every derived quantity is
    computed from the CURRENT parameters (covmodel/base.py keeps no derived value between calls: the
